@@ -75,3 +75,8 @@ claim('C16', 'evaluation of the Miller conversion functions on symbolic indices 
       'Decides structural necessary conditions: 3<->4 index maps are mutually inverse for any leading shape, denote the same Cartesian vector, refuse bad shapes/sums and keep a floating-point buffer; for every zero/sign pattern of (hkl) the two in-plane '
       'lattice vectors satisfy the zone law, are integer (lcm covers the divisors) and give a normal along +g; the eight centering table pairs are inverse with the lattice-point determinants; reduce_indices/all_indices/fromstring on model inputs; '
       'each family constructor\'s generic member satisfies its own predicate and is identified as that family by Box and by tools/crystalsystem. Tolerance behaviour near coincident parameters is not decided.', 'DESIGN.md §6 C16')
+
+claim('C10', 'writer∘reader composition evaluated on symbolic values with the real DataModelDict container: unit models of all ranks (incl. non-contiguous views), Box, Atoms, System (scaled storage, partial masses), ElasticConstants; format routing',
+      'Decides structural necessary conditions: value_unit∘model is the identity for scalars, vectors and rank 2/3 arrays, also transposed views, with keys value/shape/unit; Box.model round trip restores vectors and origin through the cell setter (cache reset); '
+      'Atoms and System models list every property with its unit and the model= constructor branches read them back, box-relative storage being converted with the same box on both sides; periodic flags, symbols and partial masses survive; '
+      'ElasticConstants.model round trip; dump/load route format, units and symbols. The third-party JSON/XML encoders and value dtypes after the text round trip are not decided.', 'DESIGN.md §6 C10')
